@@ -102,8 +102,8 @@ class Render:
         t = self.st[i]
         if t['ch']:
             return self.expr_scope(t['ch'])
-        if t['k'] == 'iter1c':
-            return self.ident(i) + '(0)'
+        if t['k'] == 'iter1c':  # leftmost iterable that is not a bare name: call / attribute / subscript
+            return self.ident(i) + ('(0)', '.a', '[0]')[self.v(i + 17, 3)]
         return self.ident(i)
 
     def tup(self, items, empty='()'):
